@@ -593,7 +593,7 @@ def fork_int(x, lo=None, hi=None, limit=64):
                 continue
             STATS["feas_queries"] += 1
             t0 = time.time()
-            r = s.solver.check()
+            r = guarded_check(s.solver, s.timeout_ms / 1000.0 + 5)
             STATS["solver_s"] += time.time() - t0
             if r != z3.sat:
                 raise Abort() if r == z3.unsat else CapHit("fork_int: unknown")
